@@ -38,7 +38,7 @@ PROJ = {
     "order": _fields(["map", "prob", "wo"]),
     "sketch": _fields(["sk", "skon"]),
     "live": _fields(["live", "map"]),
-    "safety": _fields(["walk"]),
+    "safety": _fields(["map", "prob", "wo", "walk"]),
     "policy": _fields(["ec", "ws", "map", "prob", "sk", "skon"]),
 }
 
@@ -106,8 +106,9 @@ def gen_cases(pid, rng, tier, kinds):
                     case = with_estimates(case)
             cases.append(case)
         extra = 4 if tier == "quick" else 30
-        if pid in ("C03", "C05", "C06", "C08", "C10", "C11"):
-            cases += [gen.gen_mass_expiry(rng, kind, 9000 + i, 100 if kind == "unsync" else 500) for i in range(extra // 2)]
+        if pid in ("C03", "C05", "C06", "C08", "C10", "C11", "C01", "C16"):
+            nme = extra // 2 if pid not in ("C05", "C06") else extra * 2
+            cases += [gen.gen_mass_expiry(rng, kind, 9000 + i, 100 if kind == "unsync" else 500) for i in range(nme)]
         if pid in ("C08", "C13", "C10"):
             cases += [gen.gen_bigsketch(rng, kind, 9500 + i) for i in range(extra // 2)]
         if pid in ("C08", "C09", "C10") and kind == "sync":
@@ -259,6 +260,41 @@ def run_cases(pid, oracle, project, cases, model_ok, max_report=3):
         dist["lengths"]["<=10" if L <= 10 else "<=40" if L <= 40 else "<=150" if L <= 150 else ">150"] += 1
         if hit and rem:
             nontrivial.add("\n".join(lines))
+    # directed search: the correspondence broke but no generated history violates the property.
+    # Look for a concrete failing input near the disagreeing histories: the same history without
+    # capacity pressure, and the history cut right after the disagreement followed by probes of
+    # every key at clock readings around the configured deadlines.
+    if disagreements and not violations:
+        probes = []
+        for name, lines, detail in disagreements[:12]:
+            cfg = parse_cfg(lines[0])
+            m = re.match(r"line (\d+):", detail)
+            cut = int(m.group(1)) + 1 if m else len(lines) - 1
+            keys = sorted({int(l.split()[1]) for l in lines[1:] if l.split()[0] in ("I", "G", "C", "X")})[:8]
+            nocap = re.sub(r"cap=\S+", "cap=none", lines[0])
+            probes.append((name + "_nocap", [nocap] + lines[1:]))
+            ds = {0, 1}
+            for d in (cfg["ttl"], cfg["tti"]):
+                if d:
+                    ds |= {d // 2, max(d - 1, 0), d, d // 4}
+            for j, d in enumerate(sorted(ds)):
+                for cfgl in (lines[0], nocap):
+                    tail = ["S"] if cfg["kind"] == "sync" else []
+                    tail += [f"D {d}"] + [f"C {k}" for k in keys] + [f"G {k}" for k in keys] + ["T"] + tail + ["T"]
+                    probes.append((f"{name}_probe{j}{'n' if cfgl is nocap else ''}", [cfgl] + lines[1:1 + cut] + tail))
+        pimpl = C.run_impl(probes)
+        for name, lines in probes:
+            cfg = parse_cfg(lines[0])
+            v = oracle(cfg, lines[1:], pimpl.get(name, []))
+            if v:
+                def fails(ls, cfg=cfg):
+                    t = C.run_impl([("s", ls)], shards=1).get("s", [])
+                    return oracle(cfg, ls[1:], t) is not None
+                small = C.shrink(lines, fails)
+                t = C.run_impl([("s", small)], shards=1).get("s", [])
+                violations.append((name, small, oracle(cfg, small[1:], t) or v))
+                break
+        dist["directed_search_probes"] = len(probes)
     return {
         "evaluations": len(cases),
         "distinct_nontrivial": len(nontrivial),
